@@ -43,8 +43,8 @@ def obligations(tier):
     uni = 'all Unicode scalar values'
     # ---- 18.1 escaped string literal ------------------------------------------
     add('eql_quote_literal', 's: str', [NOSUR], group='18.1.quote_literal.unicode', lens=range(0, 3), bound=uni)
-    add('eql_quote_literal', 's: str', [ADV], group='18.1.quote_literal.adv', lens=[3], bound='adversarial alphabet')
     if not quick:
+        add('eql_quote_literal', 's: str', [ADV], group='18.1.quote_literal.adv', lens=[3], bound='adversarial alphabet')
         add('eql_quote_literal', 's: str', [NOSUR], group='18.1.quote_literal.unicode', lens=[3], bound=uni, parts=UNI_FIRST)
         add('eql_quote_literal', 's: str', [ADV], group='18.1.quote_literal.adv', lens=[4], bound='adversarial alphabet',
             parts=[('q', "s[0] in '\'\"`$'"), ('nq', "s[0] not in '\'\"`$'")])
@@ -59,12 +59,12 @@ def obligations(tier):
     add('eql_quote_ident', ip, [NOSUR], group='18.3.quote_ident.unicode', lens=[0, 1], bound=uni + ' x allow_reserved x force')
     add('eql_quote_ident', ip, [ASCII, 'not force'], group='18.3.quote_ident.ascii', lens=[2], parts=FIRST4[:2],
         bound='ASCII x allow_reserved, force=False')
-    add('eql_quote_ident', ip, [ASCII, 'not force'], group='18.3.quote_ident.ascii', lens=[2],
-        parts=[(n + ('.res' if r else '.nores'), p + (' and allow_reserved' if r else ' and not allow_reserved'))
-               for n, p in FIRST4[2:] for r in (False, True)],
-        bound='ASCII, force=False')
     add('eql_quote_ident', ip, [ASCII, 'force'], group='18.3.quote_ident.ascii.forced', lens=[2], bound='ASCII x allow_reserved, force=True')
     if not quick:
+        add('eql_quote_ident', ip, [ASCII, 'not force'], group='18.3.quote_ident.ascii', lens=[2],
+            parts=[(n + ('.res' if r else '.nores'), p + (' and allow_reserved' if r else ' and not allow_reserved'))
+                   for n, p in FIRST4[2:] for r in (False, True)],
+            bound='ASCII, force=False')
         add('eql_quote_ident', ip, [NOSUR, 'not force'], group='18.3.quote_ident.unicode', lens=[2], parts=UNI_FIRST,
             bound=uni + ' x allow_reserved, force=False')
         add('eql_quote_ident', ip, [ASCII, 'not force'], group='18.3.quote_ident.ascii', lens=[3], parts=FIRST4,
@@ -72,9 +72,10 @@ def obligations(tier):
     # ---- 18.4 parameters, qualified names ------------------------------------------
     add('eql_param', 's: str', [NOSUR], group='18.4.param.unicode', lens=[0, 1], bound=uni)
     add('eql_param', 's: str', [ASCII], group='18.4.param.ascii', lens=[2], parts=FIRST4, bound='ASCII')
-    add('eql_ident_to_str', 'a: str, b: str', ['is_ascii(a) and is_ascii(b)', 'len(a) <= 1 and len(b) <= 1'],
-        group='18.4.ident_to_str', bound='two names, each |.| <= 1, ASCII')
     if not quick:
+        add('eql_ident_to_str', 'a: str, b: str', ['is_ascii(a) and is_ascii(b)', 'len(a) <= 1 and len(b) <= 1'],
+            group='18.4.ident_to_str', bound='two names, each |.| <= 1, ASCII',
+            parts=[('lt65', 'len(a) == 0 or ord(a[0]) < 65'), ('ge65', 'len(a) == 1 and ord(a[0]) >= 65')])
         add('eql_ident_to_str', 'a: str, b: str', ['no_surrogates(a) and no_surrogates(b)', 'len(a) == 1 and len(b) == 1'],
             group='18.4.ident_to_str.unicode', bound='two names, each |.| = 1, all Unicode')
         add('eql_param', 's: str', [NOSUR], group='18.4.param.unicode', lens=[2], parts=UNI_FIRST, bound=uni)
@@ -84,7 +85,8 @@ def obligations(tier):
     # ---- 18.5 string constants through the code generator ----------------------------
     cp = 's: str, pretty: bool'
     add('eql_codegen_str', cp, [NOSUR], group='18.5.codegen_str.unicode', lens=[0, 1], bound=uni + ' x pretty')
-    add('eql_codegen_str', cp, [ASCII], group='18.5.codegen_str.ascii', lens=[2], bound='ASCII x pretty', parts=FIRST4)
+    add('eql_codegen_str', cp, [ASCII], group='18.5.codegen_str.ascii', lens=[2], bound='ASCII x pretty',
+        parts=[('lt32', 'ord(s[0]) < 32'), ('32to47', '32 <= ord(s[0]) < 48')] + FIRST4[1:])
     if not quick:
         add('eql_codegen_str', cp, [NOSUR, 'not pretty'], group='18.5.codegen_str.unicode', lens=[2], parts=UNI_FIRST, bound=uni)
         add('eql_codegen_str', cp, [ADV, 'not pretty'], group='18.5.codegen_str.adv', lens=[3], bound='adversarial alphabet',
@@ -109,13 +111,12 @@ def obligations(tier):
     add('pg_quote_ident', pp, [NOSUR], group='18.8.pg_quote_ident.unicode', lens=[0, 1], bound=uni + ' x force x column')
     add('pg_quote_ident', pp, [ASCII, 'not force'], group='18.8.pg_quote_ident.ascii', lens=[2], parts=FIRST4,
         bound='ASCII x column, force=False')
-    add('pg_qname', 'a: str, b: str', ['is_ascii(a) and is_ascii(b)', 'len(a) == 1 and len(b) == 1'],
-        group='18.8.pg_qname', bound='two names, each |.| = 1, ASCII',
-        parts=[('lt65', 'ord(a[0]) < 65'), ('ge65', 'ord(a[0]) >= 65')])
-    add('pg_quote_type', 'a: str, b: str, arr: bool', ['is_ascii(a) and is_ascii(b)', 'len(a) == 1 and len(b) == 1'],
-        group='18.8.pg_quote_type', bound='schema and name |.| = 1, ASCII, optional []',
-        parts=[('lt65', 'ord(a[0]) < 65'), ('ge65', 'ord(a[0]) >= 65')])
     if not quick:
+        q4 = [('lt48', 'ord(a[0]) < 48'), ('48to64', '48 <= ord(a[0]) < 65'), ('65to96', '65 <= ord(a[0]) < 97'), ('ge97', 'ord(a[0]) >= 97')]
+        add('pg_qname', 'a: str, b: str', ['is_ascii(a) and is_ascii(b)', 'len(a) == 1 and len(b) == 1'],
+            group='18.8.pg_qname', bound='two names, each |.| = 1, ASCII', parts=q4)
+        add('pg_quote_type', 'a: str, b: str, arr: bool', ['is_ascii(a) and is_ascii(b)', 'len(a) == 1 and len(b) == 1'],
+            group='18.8.pg_quote_type', bound='schema and name |.| = 1, ASCII, optional []', parts=q4)
         add('pg_qname', 'a: str, b: str', ['no_surrogates(a) and no_surrogates(b)', 'len(a) == 1 and len(b) == 1'],
             group='18.8.pg_qname.unicode', bound='two names, each |.| = 1, all Unicode', parts=[(n, p.replace('s[0]', 'a[0]')) for n, p in UNI_FIRST])
         add('pg_quote_ident', pp, [NOSUR, 'not force'], group='18.8.pg_quote_ident.unicode', lens=[2], parts=UNI_FIRST,
